@@ -8,6 +8,7 @@ import core
 import trees
 from ref import oracle
 from props import creators_common as cc
+import interactive_route as ir
 
 GEN_FILES = []
 EXTRA_TARGETS = ["Extract/ExtractCreators.vo"]
@@ -26,7 +27,14 @@ RULE = ("model tie (unit correspondence of Model/Creators.v + Model/Bencode.v en
         "inside, a copy of the tree elsewhere, tracker/web-seed/http-seed lists, -o file / -o dir/ / default location, progress "
         "0/1/2 and -q, other clock values, a fresh interpreter via `python -m torrentfile` -- must have identical raw info spans "
         "(reference strict decoder) and be identical outside 'creation date' (and outside exactly the announce/seed keys when those "
-        "were varied).  Distinct = distinct (tree, creator, variant); non-trivial = the variant differs from the base input.")
+        "were varied).  Aimed sequences: (a) the LAST announce / url_list / httpseeds entry is a string that names an EXISTING "
+        "directory or file relative to the working directory (or an absolute existing path) while the payload is given explicitly -- "
+        "through the six class creators with path= and with content=, the four CLI routes, and the interactive dialog "
+        "(select_action, answers on a patched stdin) for the three versions: info must equal that of the same payload created "
+        "without trackers from a directory where the strings name nothing; (b) the output file INSIDE the payload directory "
+        "(`-o <payload>/x.torrent`, `-o <payload>/<sub>/x.torrent`, `cd <payload> && create -o x.torrent .`, the interactive output "
+        "answer), each on a FRESH byte-identical copy of the tree, against a base written elsewhere; (c) automatic piece length "
+        "across a threshold.  Distinct = distinct (tree, creator, variant); non-trivial = the variant differs from the base input.")
 TRUSTED_BASE = [
     "Coq 8.16.1 kernel; theorems closed under the global context; SHA-1 / SHA-256 are arbitrary functions in every theorem",
     "hand models Model/Creators.v (torrent.py creators, utils._filelist_total), Model/Bencode.v (pyben's encoder) and Spec/PathSem.v "
@@ -436,6 +444,205 @@ def e2e(ctx):
                                  detail=f"{route_name(route)}; variant {var['label']}")
 
 
+# ------------------------------------------------------------------------------------------------ aimed: paths in disguise
+AIMED_NODE = cc.D([["a.bin", cc.F(70000, "c08-aimed-a")], ["sub", cc.D([["b.bin", cc.F(40000, "c08-aimed-b")], ["e", cc.F(0, "z")]])]])
+DECOY_NODE = cc.D([["a.bin", cc.F(50000, "c08-decoy-a")], ["other.bin", cc.F(33000, "c08-decoy-o")]])
+URL = "http://tracker.example/announce"
+# (label, outer options); MIRROR / NOTE / ABSMIRROR / PAYLOAD are replaced by strings that name existing entries
+STOLEN_VARIANTS = [
+    ("announce ends with the name of a sibling DIRECTORY of the cwd", {"announce": [URL, "MIRROR"]}),
+    ("announce ends with the name of a FILE of the cwd", {"announce": [URL, "udp://u.example:1/x", "NOTE"]}),
+    ("url_list ends with the name of a directory of the cwd", {"url_list": ["http://seed.example/p", "MIRROR"]}),
+    ("url_list is only the name of a directory of the cwd", {"url_list": ["MIRROR"]}),
+    ("httpseeds ends with the name of a directory of the cwd", {"httpseeds": ["http://h.example/s", "MIRROR"]}),
+    ("httpseeds ends with an ABSOLUTE existing path", {"httpseeds": ["http://h.example/s", "ABSMIRROR"]}),
+    ("announce ends with an absolute existing path, seeds with relative ones",
+     {"announce": [URL, "ABSMIRROR"], "url_list": ["./MIRROR"], "httpseeds": ["NOTE"]}),
+    ("announce ends with the relative spelling of the payload itself", {"announce": [URL, "PAYLOAD"]}),
+]
+STOLEN_ROUTES = [["class", k, kw] for k in cc.KINDS for kw in ("path", "content")] + \
+                [["cli", "1", False], ["cli", "1", True], ["cli", "2", False], ["cli", "3", False]] + \
+                [["interactive", v] for v in ("1", "2", "3")]
+
+
+def stolen_route_name(route):
+    if route[0] == "class":
+        return f"class {route[1]} with {route[2]}="
+    if route[0] == "interactive":
+        return "interactive dialog, meta version " + route[1]
+    return route_name(route)
+
+
+def stolen_layout(tmp):
+    """work/{payload, mirror, note.txt} and an empty directory `other`"""
+    work, other = os.path.join(tmp, "work"), os.path.join(tmp, "other")
+    if not os.path.exists(work):
+        cc.write_node(os.path.join(work, "payload"), AIMED_NODE)
+        cc.write_node(os.path.join(work, "mirror"), DECOY_NODE)
+        with open(os.path.join(work, "note.txt"), "wb") as fd:
+            fd.write(b"not a payload " * 3000)
+        os.makedirs(os.path.join(other, "home"), exist_ok=True)
+        os.makedirs(os.path.join(tmp, "out"), exist_ok=True)
+    return work, other
+
+
+def stolen_create(tmp, route, cwd, top, tag, pl=16384):
+    """one metafile of work/payload (always named explicitly, absolute) with the outer options `top`, run from cwd"""
+    work, other = stolen_layout(tmp)
+    payload = os.path.join(work, "payload")
+    out = os.path.join(tmp, "out", tag + ".torrent")
+    if os.path.exists(out):
+        os.remove(out)
+    with cc.patched(cwd=cwd, clock=T0):
+        if route[0] == "class":
+            from torrentfile import torrent
+            cls, kw = cc.CLASS_OF[route[1]]
+            kw = dict(kw)
+            kw.update(top)
+            kw[route[2]] = payload
+            t = trees.quiet(getattr(torrent, cls), piece_length=pl, progress=0, outfile=out, **kw)
+            trees.quiet(t.write)
+        elif route[0] == "cli":
+            from torrentfile.cli import execute
+            try:
+                trees.quiet(execute, cli_argv(route, payload, pl, out, top, BASE_VARIANT))
+            except SystemExit as e:
+                raise RuntimeError(f"the command line exited with {e.code}")
+        else:
+            ans = ir.create_answers(payload, out, route[1], "14", top.get("announce", ()), top.get("url_list", ()),
+                                    top.get("httpseeds", ()))
+            r = ir.run_interactive_full(ans, cwd, os.path.join(other, "home"), in_process=True)
+            if r["rc"]:
+                raise RuntimeError(f"the interactive dialog raised {r['exception']}: {r['raised']}")
+    return oracle.read(out)
+
+
+def stolen_fill(top, work):
+    sub = {"MIRROR": "mirror", "./MIRROR": "./mirror", "NOTE": "note.txt", "ABSMIRROR": os.path.join(work, "mirror"), "PAYLOAD": "payload"}
+    return {k: [sub.get(x, x) for x in v] for k, v in top.items()}
+
+
+def stolen_judge(tmp, route, top):
+    """problems of (payload named explicitly, outer options naming existing entries, cwd = work) against the base"""
+    work, other = stolen_layout(tmp)
+    try:
+        base = stolen_create(tmp, route, other, {}, "base")
+        observe(base)
+    except Exception as e:  # noqa
+        return [("base-raised", "a metafile", f"{type(e).__name__}: {e}")]
+    try:
+        raw = stolen_create(tmp, route, work, stolen_fill(top, work), "var")
+    except Exception as e:  # noqa
+        return [("create-raised", "a metafile, as without trackers", f"{type(e).__name__}: {str(e)[:300]}")]
+    return compare(base, raw, [k.decode() for k in TOP_VARIABLE])
+
+
+def stolen_paths(ctx):
+    """
+    aimed: the payload is named explicitly; a tracker / web-seed / http-seed list whose LAST entry is spelled like an existing
+    entry of the working directory must stay a tracker list -- info (name, files, pieces) is that of the named payload.
+    """
+    core.use_repo_in_process()
+    thorough = ctx.tier == "thorough"
+    with core.Scratch("vc08s_") as tmp:
+        tmp = os.path.realpath(tmp)
+        os.environ["HOME"] = os.path.join(tmp, "other", "home")
+        k = ctx.rng.randrange(len(STOLEN_VARIANTS))
+        for ri, route in enumerate(STOLEN_ROUTES):
+            variants = STOLEN_VARIANTS if thorough or route[0] != "cli" else \
+                [STOLEN_VARIANTS[(k + ri + j) % len(STOLEN_VARIANTS)] for j in range(3)]
+            for label, top in variants:
+                problems = stolen_judge(tmp, route, top)
+                ctx.case(key=("stolen", json.dumps(route), label), nontrivial=True,
+                         classes=["variant: tracker/seed entry names an existing path", stolen_route_name(route)])
+                for kind, exp, obs in problems:
+                    ctx.fail(f"{kind}:tracker or seed entry names an existing path",
+                             {"kind": "stolen-path", "route": route, "route_name": stolen_route_name(route), "variant": label,
+                              "options": top, "layout": {"cwd": "work", "work/payload": cc.summary(AIMED_NODE),
+                                                         "work/mirror": cc.summary(DECOY_NODE), "work/note.txt": 42000},
+                              "payload": "work/payload (absolute)", "base": "no trackers, cwd = an empty directory"}, exp, obs,
+                             detail=f"{stolen_route_name(route)}; {label}")
+
+
+# ------------------------------------------------------------------------------------------------ aimed: outfile inside the payload
+INSIDE_ROUTES = [["cli", "1", False], ["cli", "1", True], ["cli", "2", False], ["cli", "3", False]] + \
+                [["interactive", v] for v in ("1", "2", "3")]
+INSIDE_VARIANTS = ["-o <payload>/x.torrent", "-o <payload>/sub/x.torrent", "cd <payload> && create -o x.torrent .",
+                   "cd <payload> && create -o ./sub/x.torrent ."]
+
+
+def inside_create(tmp, route, variant, tag, pl=16384):
+    """one metafile of a FRESH copy of the tree at <tmp>/<tag>/payload; variant None = base, outfile elsewhere"""
+    root = os.path.join(tmp, tag)
+    payload = os.path.join(root, "payload")
+    cc.write_node(payload, AIMED_NODE)
+    os.makedirs(os.path.join(root, "elsewhere", "home"))
+    cwd, spelling = os.path.join(root, "elsewhere"), payload
+    if variant is None:
+        outfile = expect = os.path.join(root, "elsewhere", "x.torrent")
+    elif variant == "-o <payload>/x.torrent":
+        outfile = expect = os.path.join(payload, "x.torrent")
+    elif variant == "-o <payload>/sub/x.torrent":
+        outfile = expect = os.path.join(payload, "sub", "x.torrent")
+    elif variant == "cd <payload> && create -o x.torrent .":
+        cwd, spelling, outfile, expect = payload, ".", "x.torrent", os.path.join(payload, "x.torrent")
+    else:
+        cwd, spelling, outfile, expect = payload, ".", "./sub/x.torrent", os.path.join(payload, "sub", "x.torrent")
+    with cc.patched(cwd=cwd, clock=T0):
+        if route[0] == "cli":
+            from torrentfile.cli import execute
+            try:
+                trees.quiet(execute, cli_argv(route, spelling, pl, outfile, {}, BASE_VARIANT))
+            except SystemExit as e:
+                raise RuntimeError(f"the command line exited with {e.code}")
+        else:
+            if os.path.dirname(outfile) == "":
+                outfile = "./" + outfile          # the dialog insists on a directory component
+            r = ir.run_interactive_full(ir.create_answers(spelling, outfile, route[1], "14"), cwd,
+                                        os.path.join(root, "elsewhere", "home"), in_process=True)
+            if r["rc"]:
+                raise RuntimeError(f"the interactive dialog raised {r['exception']}: {r['raised']}")
+    return oracle.read(expect)
+
+
+def inside_judge(tmp, route, variant, n):
+    try:
+        base = inside_create(tmp, route, None, f"b{n}")
+        observe(base)
+    except Exception as e:  # noqa
+        return [("base-raised", "a metafile", f"{type(e).__name__}: {e}")]
+    try:
+        raw = inside_create(tmp, route, variant, f"v{n}")
+    except Exception as e:  # noqa
+        return [("create-raised", "a metafile, as with the output elsewhere", f"{type(e).__name__}: {str(e)[:300]}")]
+    return compare(base, raw, ())
+
+
+def outfile_inside_payload(ctx):
+    """
+    aimed: the metafile is saved INSIDE the payload directory of a pristine tree.  Nothing of the output (the writability probe,
+    a temporary, the metafile itself) may be hashed as payload: info equals that of a byte-identical copy whose metafile is
+    written elsewhere.  Every create runs on its own fresh copy (a second run would rightly see the first run's metafile).
+    """
+    core.use_repo_in_process()
+    with core.Scratch("vc08o_") as tmp:
+        tmp = os.path.realpath(tmp)
+        n = 0
+        for route in INSIDE_ROUTES:
+            for variant in INSIDE_VARIANTS:
+                n += 1
+                os.environ["HOME"] = tmp
+                problems = inside_judge(tmp, route, variant, n)
+                ctx.case(key=("outfile-inside", json.dumps(route), variant), nontrivial=True,
+                         classes=["variant: outfile inside the payload directory", stolen_route_name(route)])
+                for kind, exp, obs in problems:
+                    ctx.fail(f"{kind}:outfile inside the payload directory",
+                             {"kind": "outfile-inside", "route": route, "route_name": stolen_route_name(route), "variant": variant,
+                              "payload": cc.summary(AIMED_NODE), "tree": "a fresh copy for every create",
+                              "base": "-o <elsewhere>/x.torrent <payload> on another fresh copy"}, exp, obs,
+                             detail=f"{stolen_route_name(route)}; {variant}")
+
+
 def auto_piece_length(ctx):
     """
     aimed sequence: no piece length given.  The automatically chosen piece length (part of info) must be a function of the payload
@@ -491,6 +698,8 @@ def run(ctx, model_ok):
     cc.require_classes(ctx)          # Appendix B: the correspondence generator itself must hit every class twice
     e2e(ctx)
     auto_piece_length(ctx)
+    stolen_paths(ctx)
+    outfile_inside_payload(ctx)
 
 
 def classify(failure):
@@ -513,6 +722,21 @@ def replay(ctx, data):
         if not problems:
             print("[C08 replay] the variant now agrees with the base (info identical; metafile identical outside creation date"
                   + (" and the announce/seed keys)" if strip_of(inp["variant"]) else ")"))
+        return 1 if problems else 0
+    if inp.get("kind") in ("stolen-path", "outfile-inside"):
+        core.use_repo_in_process()
+        with core.Scratch("vc08r_") as tmp:
+            tmp = os.path.realpath(tmp)
+            os.environ["HOME"] = tmp
+            if inp["kind"] == "stolen-path":
+                problems = stolen_judge(tmp, inp["route"], inp["options"])
+            else:
+                problems = inside_judge(tmp, inp["route"], inp["variant"], 0)
+        print(f"[C08 replay] {inp['route_name']}; payload {cc.summary(AIMED_NODE)}; variant: {inp['variant']}")
+        for kind, exp, obs in problems:
+            print(f"[C08 replay] VIOLATION {kind}\n   base   : {exp}\n   variant: {obs}")
+        if not problems:
+            print("[C08 replay] the variant now agrees with the base (info identical)")
         return 1 if problems else 0
     dis = data.get("disagreements") or ([data] if "what" in data else [])
     rc = 0
